@@ -247,6 +247,15 @@ def _atoms(fn: ast.AST, params: List[str], aliases: Dict[str, str]):
                         atoms.append((n, "odd", norm(n)))
                     for sub in ast.walk(n):
                         inside.add(id(sub))
+    # any other all(..)/any(..) over a generator (a filter on the compared values, an indirection through a local generator, a compound
+    # element) is a comparison the rule cannot name: it becomes an opaque atom and is reported as "other"
+    for n in ast.walk(fn):
+        if id(n) in inside:
+            continue
+        if isinstance(n, ast.Call) and isinstance(n.func, ast.Name) and n.func.id in ("all", "any") and n.args and isinstance(n.args[0], (ast.GeneratorExp, ast.ListComp)):
+            atoms.append((n, "odd", "unrecognised quantified comparison: " + norm(n)[:80]))
+            for sub in ast.walk(n):
+                inside.add(id(sub))
     for n in ast.walk(fn):
         if id(n) in inside:
             continue
